@@ -2,6 +2,7 @@ package main
 
 import (
 	"fmt"
+	"go/types"
 	"os"
 
 	"golang.org/x/tools/go/ssa"
@@ -128,6 +129,88 @@ func init() {
 		fmt.Println(len(w.Mod), "module packages loaded for js/wasm")
 		for k := range w.Pkgs {
 			fmt.Println(" ", k)
+		}
+	}
+}
+
+func init() {
+	dumpers["retroots"] = func(c *Ctx) {
+		f := c.containerFresh()
+		for _, fn := range f.funcs {
+			if fn.Pkg == nil || (shortPkg(fn.Pkg.Pkg) != "eval" && shortPkg(fn.Pkg.Pkg) != "object" && shortPkg(fn.Pkg.Pkg) != "extensions") {
+				continue
+			}
+			rets := f.retRoots(fn)
+			for i, rr := range rets {
+				if !canHoldStorage(fn.Signature.Results().At(i).Type()) {
+					continue
+				}
+				s := "fresh"
+				switch rr.kind {
+				case rShared:
+					s = "shared: " + rr.why
+					for p := range rr.params {
+						s += " [+param " + p.Name() + "]"
+					}
+				case rParam:
+					s = "param:"
+					for p := range rr.params {
+						s += " " + p.Name()
+					}
+				}
+				fmt.Printf("%s #%d %s\n", ssaFuncName(fn), i, s)
+			}
+		}
+	}
+}
+
+func init() {
+	dumpers["febounds"] = func(c *Ctx) {
+		for _, fn := range c.ModuleSSAFuncs() {
+			if fn.Pkg == nil {
+				continue
+			}
+			switch shortPkg(fn.Pkg.Pkg) {
+			case "ast", "lexer", "parser", "token", "trie":
+			default:
+				continue
+			}
+			eachInstr(fn, func(in ssa.Instruction) {
+				show := func(kind string, idx ssa.Value, strict bool) {
+					if idx == nil {
+						return
+					}
+					if _, isConst := idx.(*ssa.Const); isConst {
+						return
+					}
+					lo := c.proveLo(idx, in.Block(), 0)
+					hi := c.proveHi(idx, in.Block(), strict, 0)
+					fmt.Printf("%s %s %s lo=%v hi=%v  %s  [%s]\n", c.Pos(in.Pos()), ssaFuncName(fn), kind, lo, hi, idx.String(), in.String())
+				}
+				switch x := in.(type) {
+				case *ssa.IndexAddr:
+					show("index", x.Index, true)
+				case *ssa.Index:
+					show("index", x.Index, true)
+				case *ssa.Lookup:
+					if _, isStr := x.X.Type().Underlying().(*types.Basic); isStr {
+						show("strindex", x.Index, true)
+					}
+				case *ssa.Slice:
+					show("slice-low", x.Low, false)
+					show("slice-high", x.High, false)
+				}
+			})
+		}
+	}
+}
+
+func init() {
+	dumpers["fixedlen"] = func(c *Ctx) {
+		r := NewReport("C07", "quick", c)
+		c.checkFixedLengthOperands(r, "X", map[string]bool{"eval": true, "object": true, "extensions": true, "repl": true, "main": true})
+		for _, o := range r.Obls {
+			fmt.Printf("%v %s | %s | %s | %s\n", o.status, o.Func, o.Desc, o.Pos, o.Reason)
 		}
 	}
 }
